@@ -66,6 +66,10 @@ func diffSlice(a, b starlark.Sliceable, depth int) (*SliceableDiff, error) {
 	if err != nil {
 		return nil, err
 	}
+	if reverse {
+		// Undo the swap above: old and new are the arguments in the order given.
+		a, b = b, a
+	}
 	return &SliceableDiff{
 		valueDiff: valueDiff{old: a, new: b},
 		edits:     edits,
